@@ -72,7 +72,7 @@ def main(tier, write_baseline=False):
             fails = res["failures"]
             run.bounded.append({
                 "name": "real CLI `python -m cdd exmod` on a generated 2-level package in a throw-away venv, snapshots before/after (bounded, NOT counted as proved)",
-                "bound": "emit kinds x recursive x dry-run x pre-existing output x blacklist/whitelist subsets: %d runs (%d exited non-zero); one extra run with --output-directory .../gold" % (res["runs"], res["crashes"]),
+                "bound": "emit kinds x recursive x dry-run x pre-existing output x blacklist/whitelist subsets: %d runs (%d exited non-zero); one extra run with --output-directory .../gold; plus the same package in a plain directory on PYTHONPATH x emit kinds x dry-run x recursive" % (res["runs"], res["crashes"]),
                 "rule": "one CLI run per option combination; non-trivial = the run exits 0 or changes the file system",
                 "evaluations": res["runs"], "distinct_nontrivial": res["runs"] - res["crashes"],
                 "failures": fails[:5], "samples": res["samples"],
@@ -84,7 +84,7 @@ def main(tier, write_baseline=False):
         run.violation(name, detail, failing_input=first, solver_output={"rule": detail})
     if not refuted:
         for f in fails:
-            key = {"kind": f["what"].split(":")[0], "outdir_basename": f.get("outdir_basename", ""), "emit": f["emit"], "dry_run": f["dry_run"]}
+            key = {"kind": f["what"].split(":")[0], "outdir_basename": f.get("outdir_basename", ""), "emit": f["emit"], "dry_run": f["dry_run"], "placement": f.get("placement", "site-packages")}
             k2 = json.dumps(key, sort_keys=True)
             if k2 in seen:
                 continue
